@@ -351,6 +351,10 @@ class Interp:
         return v
 
     def assign_name(self, name: str, v: z3.ExprRef, env: Env) -> None:
+        if name in getattr(env, "nonlocals", ()):
+            owner = env.parent.owner(name) if env.parent is not None else None
+            (owner or env).vars[name] = v
+            return
         env.vars[name] = v
 
     def e_IfExp(self, node: ast.IfExp, env: Env):
@@ -852,6 +856,15 @@ class Interp:
         finally:
             self.st.depth -= 1
 
+    @staticmethod
+    def _reserved_param(fv: FuncV, name: str, index: int) -> bool:
+        """Parameter names that caller keywords are assumed never to use (stated precondition of every contract
+        with symbolic **kwargs): the receiver (`self`/`cls` in first position) and class-private names, which the
+        compiler mangles to `_Class__name`."""
+        if index == 0 and name in ("self", "cls"):
+            return True
+        return name.startswith("__") and not name.endswith("__") and fv.cls is not None
+
     def bind_params(self, fv: FuncV, cargs: CallArgs, env: Env) -> None:
         a: ast.arguments = fv.node.args
         pos = list(cargs.pos)
@@ -865,6 +878,14 @@ class Interp:
         for i, p in enumerate(params):
             if i < len(pos):
                 env.vars[p.arg] = pos[i]
+                if p.arg in kw and p not in a.posonlyargs:
+                    raise PyRaise(self.new_exc("TypeError"), f"{fv.qualname}() got multiple values for argument {p.arg}")
+                if starstar is not None and p not in a.posonlyargs and not self._reserved_param(fv, p.arg, i):
+                    # a caller-chosen keyword may collide with a named parameter that is already bound
+                    # positionally: Python raises TypeError before the body runs
+                    has = z3.Select(self.lib.dict_parts(self, starstar)["has"], self.mk_str(p.arg))
+                    if self.st.decide(has, f"kwargs-collide-with:{p.arg}"):
+                        raise PyRaise(self.new_exc("TypeError"), f"{fv.qualname}() got multiple values for argument {p.arg}")
             elif p.arg in kw and p not in a.posonlyargs:
                 env.vars[p.arg] = kw.pop(p.arg)
             elif star is not None:
@@ -993,6 +1014,17 @@ class Interp:
 
     def s_Pass(self, node, env):
         return
+
+    def s_Nonlocal(self, node: ast.Nonlocal, env: Env):
+        """A closure cell written by the function.  When the enclosing frame is not part of the scenario
+        (the contract starts at the nested function) the cell holds an arbitrary earlier value: any
+        previous invocation may have left it there."""
+        if not hasattr(env, "nonlocals"):
+            env.nonlocals = set()
+        for name in node.names:
+            env.nonlocals.add(name)
+            if env.lookup(name) is None:
+                env.vars[name] = self.st.fresh_val(f"closure!{name}")
 
     def s_Return(self, node: ast.Return, env: Env):
         raise PyReturn(self.eval(node.value, env) if node.value is not None else V.VNone)
